@@ -11,7 +11,7 @@ EXPLANATION = (
     "random binding tables/call graphs are built as real ir.Module values and validated by the real ir.Validate; error lists "
     "are compared with the model one by one. The umbrella claim is checked as an acceptance sweep: every program of the "
     "type-directed WGSL generator must pass Parse, Lower, Validate and each of SPIR-V/HLSL/MSL/GLSL; a rejection is by "
-    "itself a concrete failing input and is shrunk by the AST reducer.")
+    "itself a concrete failing input and is shrunk by the AST reducer. Literal grammar (bounded exhaustive test, not a theorem; Naga.Model.LitSpec): every string of up to 5-7 characters over digit / dot / exponent / sign / suffix / hex alphabets that is, as a whole, one numeric literal of the WGSL grammar (regular expressions transcribed from the specification) must be one token of its kind for the lexer model, which C19's token correspondence ties to the real lexer; the hexadecimal float literals are the recorded finding.")
 ASSUMPTIONS = [
     "Lean 4 kernel; axioms propext, Classical.choice, Quot.sound only",
     "Validate.spec* is my transcription of the WGSL break/continue/continuing/return rules",
@@ -96,6 +96,36 @@ def run(ck):
     # acceptance sweeps: generated programs, then call signatures (parameter type shapes x argument forms)
     for cmd, n in (("c08", nprog), ("c08sig", max(300, nprog // 2))):
         acceptance(ck, cmd, n)
+    # bounded exhaustive test (a test, not a theorem): every string over a small alphabet that is one numeric literal of the
+    # WGSL grammar (regular expressions transcribed from the specification, Naga.Model.LitSpec) must be one token of the right
+    # kind for the lexer model, which the token correspondence of C19 ties to the real lexer
+    lit_in = os.path.join(ck.dir, "litspec-in.txt")
+    sets = ["litspec 5 019.eE+-fhxXpPiuaA", "litspec 6 019.eE+-fhxpua"] + (["litspec 7 01.e+-fhxpu", "litspec 7 09.eE-fhlui"] if ck.tier == "thorough" else [])
+    open(lit_in, "w").write("".join(x + "\n" for x in sets))
+    if ck.run_driver(["litspec"], lit_in, os.path.join(ck.dir, "litspec-out.txt")):
+        tot = {"literals": 0, "agree": 0, "hexfloat": 0}
+        for req, line in zip(sets, common.read_lines(os.path.join(ck.dir, "litspec-out.txt"))):
+            m = re.match(r"literals=(\d+) agree=(\d+) hexfloat=(\d+) other=\[(.*)\]$", line)
+            if not m:
+                ck.tie_broken("litspec", "unexpected driver answer", line[:300])
+                continue
+            n, a, h = int(m.group(1)), int(m.group(2)), int(m.group(3))
+            tot["literals"] += n
+            tot["agree"] += a
+            tot["hexfloat"] += h
+            for _ in range(n):
+                ck.evaluations += 1
+            if h:
+                for k in ck.known:
+                    if k["id"] == "C08-hex-float-literal-rejected":
+                        ck.known_hits[k["id"]] = ck.known_hits.get(k["id"], 0) + h
+            others = [x.strip() for x in m.group(4).split(",") if x.strip()]
+            if others:
+                ck.violation({"kind": "numeric-literal-of-the-grammar-not-one-token", "request": req, "literals": others[:20],
+                              "how": "a numeric literal of the WGSL grammar is not lexed as one token of its kind by the lexer model "
+                                     "(Naga.Model.Lexer, tied to the real lexer by the token correspondence): `let x = <literal>;` is rejected or misread"},
+                             found_input=True)
+        ck.extra["literal_grammar_test"] = tot
     # known findings must still reproduce on their recorded witness
     for k in ck.known:
         w = k.get("witness")
